@@ -671,8 +671,13 @@ fn shl(a: Fr, b: Fr) -> Fr {
     }
 
     let n = b.into_bigint().0[0] as u32;
-    let a = a.into_bigint();
-    Fr::from_bigint(a << n).unwrap()
+    // circom keeps the low MODULUS_BIT_SIZE bits of the shifted value and reduces it modulo p
+    let mut d = a.into_bigint() << n;
+    d.0[3] &= u64::MAX >> (256 - Fr::MODULUS_BIT_SIZE);
+    if d >= Fr::MODULUS {
+        d.sub_with_borrow(&Fr::MODULUS);
+    }
+    Fr::from_bigint(d).unwrap()
 }
 
 fn shr(a: Fr, b: Fr) -> Fr {
